@@ -286,6 +286,41 @@ pub fn run(ctx: &Ctx, st: &mut Stats) {
             st.eval_primed(mix(c.hash(c.k as u64 + 22), i as u64), pr, c, check);
         }
     });
+    let ystep = ctx.tier.pick(1999, 29, 1);
+    ctx.par(st, "history: last_day_of_month on A then on A+delta, delta -70..=70, A around every month end (3 types)", true, 0, (9999 + ystep - 1) / ystep, |st, i, _| {
+        let y = 1 + i * ystep;
+        for a in crate::pools::month_end_days(y) {
+            for delta in -70i64..=70 {
+                let b = a + delta;
+                if !(MIN_DAY as i64..=MAX_DAY as i64).contains(&b) {
+                    continue;
+                }
+                let k = [K::DateLdom, K::TsLdom, K::OraLdom][((a + delta).rem_euclid(3)) as usize];
+                let (ca, cb) = if k == K::DateLdom { (C::ab(k, a, 0), C::ab(k, b, 0)) } else { (C::ab(k, a * DAY_US + 45_296_000_000, 0), C::ab(k, b * DAY_US + 45_296_000_000, 0)) };
+                st.eval_hist(mix(mix(a as u64, b as u64), k as u64), vec![ca, cb], check);
+            }
+        }
+    });
+    // century arithmetic: offsets of whole centuries (+-1 month) from the days around the end of February and the 29th
+    st.stratum("century years and their neighbours x offsets 1200*j + {-1,0,1}", true);
+    for cy in (100..=9900i64).step_by(ctx.tier.pick(2300, 100, 100)) {
+        for y in [cy - 1, cy, cy + 1, cy + 4] {
+            for (m, d) in [(1i64, 29i64), (1, 30), (1, 31), (2, 1), (2, 15), (2, 28), (2, 29), (3, 1), (3, 29), (3, 31), (12, 31)] {
+                if d > crate::cal::dim(y, m as u32) as i64 || !(1..=9999).contains(&y) {
+                    continue;
+                }
+                let n = days_from_civil(y, m, d);
+                for j in [-8i64, -4, -3, -2, -1, 1, 2, 3, 4, 8] {
+                    for e in [-1i64, 0, 1] {
+                        let k = 1200 * j + e;
+                        st.eval(&C::ab(K::DateYm, n, k), check);
+                        st.eval(&C::ab(K::TsYm, n * DAY_US + 49_641_654_321, k), check);
+                        st.eval(&C::ab(K::OraYm, n * DAY_US + 49_641_000_000, k), check);
+                    }
+                }
+            }
+        }
+    }
     cold_threads(st, "history: first call on a fresh thread", cold_list(), check);
     // seeded random (timestamp, offset)
     let n = ctx.tier.pick(1_000, 1_000_000, ctx.big(20_000_000, 200_000_000));
